@@ -81,6 +81,15 @@ def is_stateless_pipeline(spec):
     return spec["kind"] == "pipeline" and all(t["kind"] in STATELESS_TRANSFORMERS for t in spec["transformers"])
 
 
+# transformers whose fitted state is set by fit alone (update leaves it as it is) and which map
+# every time point on its own: a pipeline of these is value-checkable after updates as well
+FIT_FROZEN_TRANSFORMERS = STATELESS_TRANSFORMERS + ("deseason", "scaler")
+
+
+def is_fit_frozen_pipeline(spec):
+    return spec["kind"] == "pipeline" and all(t["kind"] in FIT_FROZEN_TRANSFORMERS for t in spec["transformers"])
+
+
 def _regressor(name, seed=0):
     from sklearn.linear_model import LinearRegression
     from sklearn.neighbors import KNeighborsRegressor
@@ -231,7 +240,7 @@ def refits_on_update(spec):
         return False
     if k in ("ensemble", "multiplex"):
         return all(refits_on_update(m) for m in spec["members"])
-    if is_stateless_pipeline(spec):
+    if is_fit_frozen_pipeline(spec):
         return refits_on_update(spec["forecaster"])
     return False
 
